@@ -75,17 +75,8 @@ fn case_strategy(tier: Tier) -> BoxedStrategy<BhCase> {
         wait,
         1u8..=4,
         prop::collection::vec(caller, 2..=callers_hi),
+        prop::collection::vec(any::<u8>(), 0..=48),
     )
-        .prop_flat_map(|(max, wait, clones, callers)| {
-            let n = callers.len();
-            (
-                Just(max),
-                Just(wait),
-                Just(clones),
-                Just(callers),
-                gen::order(4 * n),
-            )
-        })
         .prop_map(|(max, wait, clones, callers, order)| BhCase {
             max,
             wait,
